@@ -882,9 +882,16 @@ def gen_method(interp, g, name, args, kwargs):
 
 
 def su_method(interp, s: SU, name, args, kwargs):
-    if name == "lower" and s.pytype is str:
-        f = z3.Function("str.lower", U, U)
+    if name in ("lower", "upper", "strip", "lstrip", "rstrip", "title", "capitalize") and s.pytype is str and not args:
+        f = z3.Function(f"str.{name}", U, U)  # a pure function of the string
         return SU(f(s.t), str)
+    if name in ("isdigit", "isalpha", "isspace", "isnumeric", "isupper", "islower", "isalnum") and s.pytype is str and not args:
+        f = z3.Function(f"str.{name}", U, z3.BoolSort())
+        return wrap(f(s.t))
+    if name in ("startswith", "endswith") and s.pytype is str and len(args) == 1 and isinstance(args[0], (str, tuple)):
+        f = z3.Function(f"str.{name}", U, U, z3.BoolSort())
+        opts = args[0] if isinstance(args[0], tuple) else (args[0],)
+        return wrap(z3.Or(*[f(s.t, ustr(o)) for o in opts]))
     raise OutsideSubset(f"method {name} on opaque value")
 
 
